@@ -4,7 +4,9 @@ import (
 	"encoding/json"
 	"fmt"
 	"math/rand"
+	"os"
 	"regexp"
+	"strconv"
 	"strings"
 
 	"pegsim/sim"
@@ -118,11 +120,29 @@ func (checkC08) Gen(seed uint64, tier string) (*Scenario, error) {
 		p.POutage, p.OutageMax = 0.15, 2+rng.Intn(6)
 		p.PConv, p.TxMean = 0.9, 3+2*rng.Float64()
 	}
+	crowdN := 0
+	if seed%9 == 0 {
+		// a crowd of dust addresses before a holder snapshot (2.0 rules)
+		p.StartEra = eraV20 + rng.Intn(3)
+		alignSnapshots(&p, rng, 14+rng.Intn(6))
+		p.Blocks = 26 + rng.Intn(6)
+		// scaled down: a page cache of 50-120 pages instead of SQLite's default
+		// (about 500) and a crowd of 1,500-3,500 addresses instead of the 10,000+
+		// it takes at the default size; the ratio of dirty pages to cache is what matters
+		p.Cache = 50 + rng.Intn(70)
+		crowdN = 1500 + rng.Intn(2000)
+		if v, _ := strconv.Atoi(os.Getenv("PEGSIM_CROWD")); v > 0 {
+			crowdN = v
+		}
+	}
 	g := world.NewGen(seed, p)
 	// third parties also write *valid* entries of unusual shapes: the actors of
 	// the refinement checks (amounts at the edges of the funds checks, PEG
 	// requests, conversions into every category, burn-address traffic)
 	acts := []func(uint32, *world.BlockSpec){exactBatches(rng, g), pegRequests(rng, g), conversionMatrix(rng, g), burnAddressTraffic(rng, g)}
+	if crowdN > 0 {
+		acts = append(acts, crowd(rng, g, crowdN))
+	}
 	for i := 0; i < p.Blocks; i++ {
 		bi := i
 		if _, err := g.Step(func(h uint32, bs *world.BlockSpec) {
